@@ -217,7 +217,7 @@ def result_container_check(_):
             bad.setdefault("result-unknown-key-wrong-exception", (key, type(e).__name__))
         # the other ways of writing into a mapping obey the same contract (unknown keys rejected, values copied)
         for how, fn in (("update", lambda: r.update({key: 1})), ("update-kw", lambda: r.update(**{key: 1}) if key.isidentifier() else r.update({key: 1})),
-                        ("setdefault", lambda: r.setdefault(key, 1))):
+                        ("setdefault", lambda: r.setdefault(key, 1)), ("ior", lambda: r.__ior__({key: 1}))):
             n += 1
             try:
                 fn()
